@@ -43,7 +43,7 @@ CONSTANTS Minerals,     \* mineral handles
           Seeds,        \* seeds offered to Create
           Textures,     \* initial texture classes; "nonuniform" has strongly unequal volumes
           Flows,        \* flow class names; "zero" is the zero velocity gradient
-          Pars,         \* parameter records [M, chi, asm, phiOl]  (chi, phiOl in tenths)
+          Pars,         \* parameter records [M, chi, asm, phiOl, x]  (chi, phiOl in tenths; x = <<lambda*, pn class>>)
           Callbacks,    \* regimes a get_regime callback may return; NoCb = no callback
           MaxUpd,       \* bound on successful updates per mineral
           MaxOps        \* bound on the total number of calls
@@ -68,7 +68,8 @@ InitF(n, tex)       == <<"f0", <<n, tex>>>>
 \* true for the uniform initial volumes 1/n of every texture class except "nonuniform"
 Floorless(f) == f[1] = "f0" /\ f[2][2] # "nonuniform"
 \* everything the update of ONE mineral may depend on
-StepKey(c, r, fl, par) == <<c.phase, c.fabric, r, c.n, fl, par.M, par.chi, Phi(c.phase, par)>>
+\* par.x = <<lambda*, (p, n) class>>: the remaining recrystallisation / rheology parameters
+StepKey(c, r, fl, par) == <<c.phase, c.fabric, r, c.n, fl, par.M, par.chi, Phi(c.phase, par), par.x>>
 NextO(prev, c, r, fl, par) ==
     IF NullReg(r) \/ fl = "zero" THEN prev.o
     ELSE <<"upd", <<prev.o, prev.f, StepKey(c, r, fl, par)>>>>
